@@ -128,11 +128,9 @@ impl Terminal {
         write!(self.stderr, "{}", current).expect("failed to print debugger input");
 
         // Set final cursor position
-        execute!(
-            self.stderr,
-            cursor::MoveToColumn((PROMPT.len() + self.visible_cursor) as u16),
-        )
-        .expect("failed to move cursor");
+        // Clamp column (of terminal, not of line): `MoveToColumn` adds 1 to its `u16` argument
+        let column = (PROMPT.len() + self.visible_cursor).min(u16::MAX as usize - 1) as u16;
+        execute!(self.stderr, cursor::MoveToColumn(column)).expect("failed to move cursor");
 
         // Previous `execute!` call flushed output already
     }
